@@ -135,6 +135,7 @@ impl PairHMM {
         let mut prev = 0;
         let mut curr = 1;
         self.fm[prev][0] = LogProb::ln_one();
+        self.min_edit_dist[prev][0] = 0;
 
         // iterate over x
         for i in 0..emission_params.len_x() {
